@@ -2,6 +2,8 @@
 C19 helper lemmas, part 6: the .fai text form — `readFrom (writeTo idx)` gives the index back.
 -/
 import Hts.Model.Fai
+set_option linter.unusedVariables false
+set_option linter.unusedSimpArgs false
 namespace Hts.Lemmas.Fai
 open Hts.Model.Fai
 
